@@ -281,6 +281,12 @@ class Run:
             entries = [(free[0], vids()), (rng.choice(have), vids()) if have and rng.random() < 0.5 else (free[-1] if len(free) > 1 else "zz", [UNKNOWN_VID])]
             if entries[0][0] == entries[1][0]:
                 kind = "dup_in_message"
+            else:
+                # the offending entry first, in the middle or last
+                more = [r for r in free[1:-1] if r != entries[1][0]][:1]
+                entries += [(r, vids()) for r in more]
+                rng.shuffle(entries)
+                self.ctx.count("request.multi_bad.position_of_bad_entry." + str(next(i for i, (r, vs) in enumerate(entries) if UNKNOWN_VID in vs or r in m.reports)))
         elif kind == "dup_in_message" and free:
             r = rng.choice(free)
             entries = [(r, vids()), (r, vids())]
@@ -344,7 +350,7 @@ class Run:
         rng = self.ctx.rng
         m = self.m
         kind = rng.choice(["link", "link", "link", "unknown_ceid", "undefined_report", "undefined_report", "already_linked", "unlink", "append",
-                           "dup_report", "dup_ceid", "multi_ok"])
+                           "dup_report", "dup_ceid", "multi_ok", "multi_bad", "multi_bad"])
         have = list(m.reports)
         unlinked = [c for c in CEIDS if not m.links.get(c)]
         linked = [c for c in CEIDS if m.links.get(c)]
@@ -382,6 +388,18 @@ class Run:
             entries = [(c, [a]), (c, [b])]
         elif kind == "multi_ok" and have and len(unlinked) >= 2:
             entries = [(c, rng.sample(have, 1)) for c in rng.sample(unlinked, 2)]
+        elif kind == "multi_bad" and have and len(unlinked) >= 2:
+            # one or two acceptable entries and one that must be refused, in any position
+            good = [(c, rng.sample(have, 1)) for c in rng.sample(unlinked, rng.choice([1, 2]))]
+            rest = [c for c in unlinked if c not in [g[0] for g in good]]
+            undefined = [r for r in RPTIDS if r not in m.reports]
+            if undefined and rest and rng.random() < 0.5:
+                bad = (rest[0], [rng.choice(undefined)])
+            else:
+                bad = (UNKNOWN_CEID, rng.sample(have, 1))
+            entries = good + [bad]
+            rng.shuffle(entries)
+            self.ctx.count("request.link.multi_bad.position_of_bad_entry." + str(entries.index(bad)))
         else:
             return
         body = e5ref.encode(("L", [("U4", [1]), ("L", [("L", [idt(c), ("L", [idt(r) for r in rs])]) for c, rs in entries])]))
